@@ -256,7 +256,14 @@ def run(tier, seed):
             rd2 = fastavro.reader(io.BytesIO(out2.getvalue()))
             again = [to_wire(x) for x in rd2]
             why = None
-            if [canon(x) for x in again] != [canon(x) for x in c["nfs"]]:
+            # what writing the read-back records (they carry no hints any more, so an ambiguous union may
+            # legitimately take another branch than the original, hinted datum did) gives without a container
+            expect = []
+            for x in first:
+                bo = io.BytesIO()
+                fastavro.schemaless_writer(bo, rd.writer_schema, x)
+                expect.append(to_wire(fastavro.schemaless_reader(io.BytesIO(bo.getvalue()), rd.writer_schema)))
+            if [canon(x) for x in again] != [canon(x) for x in expect]:
                 why = "records differ after re-encoding the file with another codec"
             elif rd2.codec != codec2:
                 why = "re-encoded file reports codec %r, supplied %r" % (rd2.codec, codec2)
